@@ -1,0 +1,89 @@
+//go:build verif
+// +build verif
+
+// Verification hook (add-only, build tag `verif`): the remaining places of group creation that
+// size a threshold collector, each built by its production constructor so that the size the
+// production code picks (not one chosen by the harness) decides the threshold.
+//
+//	VerifNewParentCollector(parent, candidates, baseBH, baseGroup) *VerifParentCollector
+//	    newCreateGroupBaseInfo + newCreateGroupContext: the context in which the PARENT group signs
+//	    the new group's header; AcceptPiece is createGroupContext.acceptPiece (what
+//	    tryRecoverParentGroupSig calls), the rest reads the context's GroupSignGenerator.
+//	VerifNewNodeWithCandidates(seed, selfId, groupHash, members, candidates) *VerifNode
+//	    as VerifNewNode, with a candidate list that may differ in size from the member list
+//	    (newGroupInitContext receives both in production).
+//	VerifNewPubkeyCollector(groupHash, members) *VerifPubkeyCollector
+//	    NewGroupPubkeyCollector: adopts the group public key announced by enough members.
+//
+// Thin wrappers, no behaviour.
+package group_create
+
+import (
+	"com.tuntun.rangers/node/src/common"
+	"com.tuntun.rangers/node/src/consensus/base"
+	"com.tuntun.rangers/node/src/consensus/groupsig"
+	"com.tuntun.rangers/node/src/consensus/model"
+	"com.tuntun.rangers/node/src/middleware/types"
+)
+
+type VerifParentCollector struct{ ctx *createGroupContext }
+
+func VerifNewParentCollector(parent *model.GroupInfo, candidates []groupsig.ID, baseBH *types.BlockHeader, baseGroup *types.Group) *VerifParentCollector {
+	verifEnsureLogger()
+	cands := make([]groupsig.ID, len(candidates))
+	copy(cands, candidates)
+	baseCtx := newCreateGroupBaseInfo(parent, baseBH, baseGroup, cands)
+	return &VerifParentCollector{ctx: newCreateGroupContext(baseCtx, nil, true, baseBH.Height)}
+}
+
+func (v *VerifParentCollector) AcceptPiece(from groupsig.ID, sign groupsig.Signature) (accept, recover bool) {
+	return v.ctx.acceptPiece(from, sign)
+}
+func (v *VerifParentCollector) Recovered() bool { return v.ctx.groupSignGenerator.SignRecovered() }
+func (v *VerifParentCollector) GroupSign() groupsig.Signature {
+	return v.ctx.groupSignGenerator.GetGroupSign()
+}
+func (v *VerifParentCollector) Threshold() int    { return v.ctx.groupSignGenerator.Threshold() }
+func (v *VerifParentCollector) WitnessCount() int { return v.ctx.groupSignGenerator.WitnessCount() }
+func (v *VerifParentCollector) VerifyGroupSign(gpk groupsig.Pubkey, data []byte) bool {
+	return v.ctx.groupSignGenerator.VerifyGroupSign(gpk, data)
+}
+
+func VerifNewNodeWithCandidates(seed base.Rand, selfId groupsig.ID, groupHash common.Hash, members, candidates []groupsig.ID) *VerifNode {
+	verifEnsureLogger()
+	mi := &model.SelfMinerInfo{SecretSeed: seed}
+	mi.ID = selfId
+	mems := make([]groupsig.ID, len(members))
+	copy(mems, members)
+	cands := make([]groupsig.ID, len(candidates))
+	copy(cands, candidates)
+	info := &model.GroupInitInfo{
+		GroupHeader:  &types.GroupHeader{Hash: groupHash},
+		GroupMembers: mems,
+	}
+	ctx := newGroupInitContext(info, cands, mi)
+	if ctx == nil {
+		return nil
+	}
+	return &VerifNode{self: selfId, ctx: ctx}
+}
+
+type VerifPubkeyCollector struct{ c *groupPubkeyCollector }
+
+func VerifNewPubkeyCollector(groupHash common.Hash, members []groupsig.ID) *VerifPubkeyCollector {
+	verifEnsureLogger()
+	mems := make([]groupsig.ID, len(members))
+	copy(mems, members)
+	info := &model.GroupInitInfo{
+		GroupHeader:  &types.GroupHeader{Hash: groupHash},
+		GroupMembers: mems,
+	}
+	return &VerifPubkeyCollector{c: NewGroupPubkeyCollector(info)}
+}
+
+// Handle is handleGroupSign: -1 failed, 0 still collecting, 1 group public key adopted.
+func (v *VerifPubkeyCollector) Handle(member groupsig.ID, gpk groupsig.Pubkey) int32 {
+	return v.c.handleGroupSign(member, gpk)
+}
+func (v *VerifPubkeyCollector) GroupPK() groupsig.Pubkey { return v.c.groupPK }
+func (v *VerifPubkeyCollector) Threshold() int           { return v.c.threshold }
